@@ -422,5 +422,27 @@ def r16_6(ctx):
     return r
 
 
+def r16_7(ctx):
+    """a decoder's "is there room for this element" guard must accept the boundary case where the element ends exactly
+    at the end of the buffer: `pos + size > len => stop` / `len < pos + size => error`, not `>=` / `<=`. An over-strict
+    guard silently drops (or refuses) a valid LAST element - e.g. the final attribute of a STUN message, the last report
+    block of an RR - while everything produced by this crate (which ends in other elements) still round-trips."""
+    r = RuleResult("R16.7", "K6", "STUN/TURN decoders: element-fits guards accept an element that ends exactly at the end of the buffer")
+    n = 0
+    for b in ctx.facts.all_bodies():
+        if "::tests::" in b.name or not b.name.startswith(('transports::ice::stun::', 'transports::ice::shared_tcp::', 'transports::ice::turn::')):
+            continue
+        for sb, t, tight in core.bound_guards(b):
+            n += 1
+            if tight:
+                r.ok({"site": b.where(sb), "guard": mir.show(t, 90)})
+            else:
+                r.violate(b.name, "guard:over-strict", b.where(sb),
+                          "the guard %s also rejects an element that ends exactly at the end of the buffer (the access it protects is in "
+                          "bounds there): a valid last element is dropped or refused" % mir.show(t, 100))
+    r.need("element-fits guards", n, 2)
+    return r
+
+
 def run(ctx):
-    return [r16_1(ctx), r16_2(ctx), r16_3(ctx), r16_4(ctx), r16_5(ctx), r16_6(ctx)]
+    return [r16_1(ctx), r16_2(ctx), r16_3(ctx), r16_4(ctx), r16_5(ctx), r16_6(ctx), r16_7(ctx)]
